@@ -101,3 +101,41 @@ def has_real_default(t):
     if b[0] in ('seqof', 'setof'):
         return has_real_default(b[1])
     return False
+
+
+def t11(case):
+    return has_constructed_default(case.t) and t11_witness(case.t, case.v, case.fresh_obj())
+
+
+def t11_witness(t, v, obj):
+    """is the T11 mechanism actually at work on this value: a DEFAULT member of constructed type whose comparison with
+    the declared default by pyasn1's own `==` raises, or says "equal" although the abstract contents differ?"""
+    b = gen.base_of(t)
+    if v[0] == 'absent' or obj is None:
+        return False
+    try:
+        if b[0] in ('seq', 'set'):
+            for i, ((kind, dflt, ft), fv) in enumerate(zip(b[1], v[1])):
+                if fv[0] == 'absent':
+                    continue
+                comp = obj.getComponentByPosition(i, default=None, instantiate=False)
+                if comp is None:
+                    continue
+                if kind == 'd' and gen.base_of(ft)[0] in ('seq', 'set', 'seqof', 'setof', 'choice'):
+                    d = obj.componentType[i].asn1Object
+                    try:
+                        eq = bool(comp == d)
+                    except Exception:  # noqa
+                        return True
+                    if eq and not gen.val_equiv(ft, fv, dflt):
+                        return True
+                if t11_witness(ft, fv, comp):
+                    return True
+            return False
+        if b[0] in ('seqof', 'setof'):
+            return any(t11_witness(b[1], x, obj.getComponentByPosition(i, instantiate=False)) for i, x in enumerate(v[1]))
+        if b[0] == 'choice':
+            return t11_witness(b[1][v[1]][2], v[2], obj.getComponent())
+    except Exception:  # noqa
+        return True
+    return False
